@@ -53,6 +53,7 @@ struct PeerRt {
     cfg: PeerCfg,
     answered: u32,
     matched: u32,
+    conflicts: HashMap<Vec<u8>, u32>,
 }
 
 #[derive(Clone, Debug)]
@@ -333,7 +334,7 @@ impl<'a> World<'a> {
             scn,
             now: 0,
             duts: vec![],
-            peers: scn.peers.iter().map(|c| PeerRt { cfg: c.clone(), answered: 0, matched: 0 }).collect(),
+            peers: scn.peers.iter().map(|c| PeerRt { cfg: c.clone(), answered: 0, matched: 0, conflicts: HashMap::new() }).collect(),
             queue: BinaryHeap::new(),
             qevs: vec![],
             seq: 0,
@@ -536,7 +537,14 @@ impl<'a> World<'a> {
         if let Some((slot, rx)) = new_slot {
             self.duts[d].slots.insert(slot, (rx, false));
         }
-        self.trace.api.push(ApiRes { op: op_idx, d, t: self.now, before_step, outcome, at_yield });
+        if self.duts[d].gone {
+            // no step will follow: read what the call left on its channel right away
+            let step = self.trace.steps.len().saturating_sub(1);
+            let now = self.now;
+            drain_slots(&mut self.duts[d].slots, &mut self.trace.events, d, step, now, true);
+        }
+        let yield_op = if op_idx == usize::MAX { Some(op.clone()) } else { None };
+        self.trace.api.push(ApiRes { op: op_idx, d, t: self.now, before_step, outcome, at_yield, yield_op });
         self.duts[d].needs_step = true;
     }
 
@@ -886,6 +894,34 @@ impl<'a> World<'a> {
         let Some(resp) = self.peers[p].cfg.responder.clone() else { return };
         if !resp.active {
             return;
+        }
+        // conflicter: claim the names the DUT is probing for, with different data
+        if resp.conflict_probes > 0 && !msg.authorities.is_empty() {
+            let mut out = Msg::response();
+            for a in &msg.authorities {
+                // at most `conflict_probes` contested probes in total (a peer that contests every new name for ever
+                // legitimately keeps the DUT renaming for ever)
+                let key = b"total".to_vec();
+                let n = self.peers[p].conflicts.entry(key).or_insert(0);
+                if *n >= resp.conflict_probes {
+                    continue;
+                }
+                match &a.rdata {
+                    RData::Srv { port, target, .. } => {
+                        *n += 1;
+                        out.answers.push(Rec::srv(&a.name, target, port.wrapping_add(1), 120, true));
+                    }
+                    RData::A(ip) => {
+                        *n += 1;
+                        out.answers.push(Rec::a(&a.name, [ip[0], ip[1], ip[2], ip[3].wrapping_add(1)], 120, true));
+                    }
+                    _ => {}
+                }
+            }
+            if !out.answers.is_empty() {
+                let at = self.now + resp.delay_ms;
+                self.push(at, QEv::PeerAuto { p, v4, msg: out });
+            }
         }
         let mut out = Msg::response();
         for q in &msg.questions {
@@ -1278,6 +1314,12 @@ impl<'a> World<'a> {
     }
 
     fn finish(&mut self) {
+        // a last look at every channel (a daemon that has exited takes no further step)
+        for d in 0..self.duts.len() {
+            let step = self.trace.steps.len().saturating_sub(1);
+            let now = self.now;
+            drain_slots(&mut self.duts[d].slots, &mut self.trace.events, d, step, now, true);
+        }
         for d in 0..self.duts.len() {
             let g = self.duts[d].node.lock();
             self.trace.jitter_draws[d] = g.jitter_draws.clone();
